@@ -318,8 +318,10 @@ func wrap(obj render3d.Object, x gen.Xform3) render3d.Object {
 	case "vecscale":
 		return render3d.MatrixMultiply(obj, &model3d.Matrix3{x.V[0], 0, 0, 0, x.V[1], 0, 0, 0, x.V[2]})
 	case "matrix":
-		// row-major description, column-major library matrix
-		return render3d.MatrixMultiply(obj, &model3d.Matrix3{x.M[0], x.M[3], x.M[6], x.M[1], x.M[4], x.M[7], x.M[2], x.M[5], x.M[8]})
+		// row-major description; the library stores Matrix3 row by row as well (matrix.go: "stored in
+		// row-major order", MulColumn: X = m[0]*x + m[1]*y + m[2]*z), same as gen.Xform3.Build
+		m := model3d.Matrix3(x.M)
+		return render3d.MatrixMultiply(obj, &m)
 	case "joined":
 		for _, p := range x.Parts {
 			obj = wrap(obj, p)
